@@ -668,6 +668,26 @@ example : canonicalRRset id [[2, 1], [1], [1, 0], [2, 1], [1]] = canonicalRRset 
   canonical_order_independent id _ _ (by intro x; simp; grind)
 example : canonicalRRset id [[2, 1], [1], [1, 0], [2, 1], [1]] = [1, 1, 0, 2, 1] := by decide
 
+/-- **Canonical RDATA is a function of type and RDATA alone** — by
+construction of `canonRdata : Nat → Bytes → Option Bytes` it cannot depend on
+the record's TTL, on the spelling of its owner or on whether the owner was a
+wildcard expansion (the shortcut of seeded change C14-18 is not expressible) —
+it keeps the RDATA length, and leaves every type outside the RFC 4034 §6.2 /
+RFC 6840 §5.1 list exactly as published. The run compares it with the
+harness's hand-written RFC reference on every `sd data` / `vfy sig` line and,
+through the signed data, with `canonicalizeRdataNames`. -/
+theorem canon_rdata_keeps_length (typ : Nat) (rd c : Bytes) (h : canonRdata typ rd = some c) : c.length = rd.length :=
+  canonRdata_length typ rd c h
+
+theorem canon_rdata_unlisted_as_published (typ : Nat) (rd : Bytes)
+    (h : typ ∉ [2, 3, 4, 5, 6, 7, 8, 9, 12, 14, 15, 17, 18, 21, 26, 33, 35, 36, 39]) : canonRdata typ rd = some rd :=
+  canonRdata_unlisted typ rd h
+
+-- MX 10 "A." is signed as MX 10 "a."; NSEC next name "A." stays as published
+example : canonRdata 15 [0, 10, 1, 65, 0] = some [0, 10, 1, 97, 0] := by decide
+example : canonRdata 47 [1, 65, 0, 0, 1, 64] = some [1, 65, 0, 0, 1, 64] := by decide
+example : canonRdata 6 ([1, 65, 0, 1, 66, 0] ++ List.replicate 20 7) = some ([1, 97, 0, 1, 98, 0] ++ List.replicate 20 7) := by decide
+
 /-- wildcard reconstruction: an owner with more labels than the RRSIG says is
 signed as `*` + its rightmost `labels` labels, lowercased. -/
 theorem canon_owner_wildcard (ls : List Label) (k : Nat) (h : k < ls.length) (hk : 0 < k) :
